@@ -100,10 +100,21 @@ def matlab_case(idx, payload):
     rng = random.Random(seed * 1000003 + idx + 500000)
     n = rng.randint(2, 3)
     texts = []
-    for i in range(n):
-        m, t = gen_text(rng, dict(max_decls=2))
-        ending = rng.choice(["", "\n", " ", "\n\n", " /* end */", " // end of file\n", "\t"])
-        texts.append(t.rstrip() + ending)
+    endings = ["", "\n", " ", "\n\n", " /* end */", " // end of file\n", "\t"]
+    if rng.random() < 0.5:
+        # ONE coherent module (typedefs refer to templates declared anywhere in it) cut into files at random
+        # top-level split points: typedefs and their templates end up in different files
+        import gen
+        m, _ = gen_text(rng, dict(max_decls=5, n_typedefs=3, p_template=0.6, extra_kinds=['cls']))
+        cuts = sorted(rng.sample(range(len(m) + 1), min(n - 1, len(m) + 1)))
+        parts = [m[a:b] for a, b in zip([0] + cuts, cuts + [len(m)])]
+        for part in parts:
+            texts.append(gen.layout(rng, gen.lexemes(part), 'space').rstrip() + rng.choice(endings))
+        n = len(texts)
+    else:
+        for i in range(n):
+            m, t = gen_text(rng, dict(max_decls=2))
+            texts.append(t.rstrip() + rng.choice(endings))
     res = dict(idx=idx, text="\x1e".join(texts), n=n, bad=None)
     a = impl_matlab(texts, "m", [], False)
     b = impl_matlab(["\n".join(texts)], "m", [], False)
@@ -119,7 +130,7 @@ def script_case(idx, payload):
     from gtwrap.pybind_wrapper import PybindWrapper
     seed, _ = payload
     rng = random.Random(seed * 1000003 + idx + 900000)
-    m, text = gen_text(rng, dict(max_depth=2, max_decls=4, extra_kinds=['ns', 'ns', 'ns', 'cls']))
+    m, text = gen_text(rng, dict(max_depth=2, max_decls=4, extra_kinds=['ns', 'ns', 'ns', 'cls'], p_template=0.6, n_typedefs=3))
     import gen
     nss = [p for p, _ in gen.walk_namespaces(m) if p]
     topp = list(rng.choice(nss)) if nss and rng.random() < 0.8 else []
@@ -130,6 +141,21 @@ def script_case(idx, payload):
     sub = rng.random() < 0.4
     ignore = rng.choice([None, [], ["x::NotThere"]])
     which = rng.choice(["pybind", "pybind", "matlab"])
+    if rng.random() < 0.5:
+        # entries naming real (instantiated) classes; C++ names of multi-parameter instantiations contain ", "
+        names = streams.class_cpp_names(text)
+        if which == "matlab":
+            keys = []
+            for l in streams.model_call("icpp", text).split("\n"):
+                if l.startswith("C "):
+                    f = l.split(" | ")
+                    qual = f[1].split("<")[0]
+                    if "::" in qual:
+                        keys.append(qual.rsplit("::", 1)[0] + "::" + f[0][2:])
+            names = keys
+        if names:
+            multi = [x for x in names if ", " in x]
+            ignore = rng.sample(names, rng.randint(1, min(2, len(names)))) + (rng.sample(multi, 1) if multi else [])
     d = tempfile.mkdtemp(prefix="verif_c16_")
     res = dict(idx=idx, text=text, script=which, opts=dict(top=spelling, boost=boost, sub=sub, ignore=ignore), bad=None)
     try:
@@ -233,7 +259,7 @@ def replay_finding(e):
 def main(ctx):
     fw.translate_and_build(ctx, ["WrapModel", "wrapmodel"])
     fw.audit(ctx, THEOREM_MODULES)
-    run(ctx, (ctx.scale(90, 2000), ctx.scale(50, 1000), ctx.scale(40, 500)))
+    run(ctx, (ctx.scale(90, 2000), ctx.scale(50, 1000), ctx.scale(64, 600)))
     for e in ctx.known:
         still = replay_finding(e)
         if e.get("kind") == "fixed":
